@@ -47,7 +47,7 @@ VERIF_HARNESS(c18_build) {
   if (!m.plen) VERIF_ASSERT(coap_add_option(pdu, 65000, 2, v1) != 0, "build: with memory available the next add succeeds");
   coap_delete_pdu(pdu);
 #ifdef WITNESS
-  if (env_alloc_failed >= 1 && m.n >= 2) VERIF_REACH("build: a later allocation failed");
+  if (env_alloc_failed >= 1 && m.n >= 1) VERIF_REACH("build: a later allocation failed");
 #endif
 }
 
